@@ -302,12 +302,12 @@ func TestC10(t *testing.T) {
 	h.Require("accepted", "allOf-chain>=2")
 	maxPerms := h.Pick(24, 120)
 	vlib.Rapid(h, "permutations", h.N(1500, 60000), func(t *rapid.T) c10Case {
-		doc := vlib.GenDoc(t, vlib.GenOpts{Macros: rapid.Bool().Draw(t, "macros")})
+		doc := vlib.GenDoc(t, vlib.GenOpts{Macros: rapid.Bool().Draw(t, "macros"), Inheritance: rapid.Bool().Draw(t, "inheritance")})
 		_, units := doc.Blocks()
 		return c10Case{Doc: doc, Perms: genPerms(t, len(units), maxPerms)}
 	}, c10Check)
 	vlib.Rapid(h, "permutations-faulty-docs", h.N(400, 15000), func(t *rapid.T) c10Case {
-		doc := injectAnyFault(t, vlib.GenDoc(t, vlib.GenOpts{Macros: rapid.Bool().Draw(t, "macros")}))
+		doc := injectAnyFault(t, vlib.GenDoc(t, vlib.GenOpts{Macros: rapid.Bool().Draw(t, "macros"), Inheritance: rapid.Bool().Draw(t, "inheritance")}))
 		_, units := doc.Blocks()
 		return c10Case{Doc: doc, Perms: genPerms(t, len(units), 6)}
 	}, c10Check)
